@@ -182,8 +182,10 @@ def correspond(ctx):
     os.makedirs(work)
 
     def model(lines):
-        rc, out, err = vlib.sh([driver], input="\n".join(lines) + "\n", timeout=600)
+        rc, out, err = vlib.sh([driver], input="\n".join(lines) + "\n", timeout=120)
         res = out.split("\n")
+        if rc != 0 and os.environ.get("C16_DEBUG"):
+            open(os.path.join(ctx.work, "model-input.txt"), "w").write("\n".join(lines) + "\n")
         if rc != 0 or len(res) < len(lines) or any(r.startswith("!exn") for r in res[:len(lines)]):
             raise RuntimeError("model driver failed: %s %s" % (err[-300:], [r for r in res if r.startswith("!exn")][:2]))
         return res[:len(lines)]
@@ -227,7 +229,7 @@ def correspond(ctx):
         reads = sorted(set(outer) | set(inner))
         cases.append(("hygiene_nested", (outer, inner, use, reads)))
     cases.append(("hygiene_nested", ({1: 10}, {2: 3}, {1: 20, 2: 7}, [1, 2])))
-    # the leak witness of C16_hygiene_no_leak_refuted, every run; and a body that reads a name bound
+    # the leak witness of C16_restoring_pop_needed, every run; and a body that reads a name bound
     # only at the use site (must be rejected: the body does not see the use site)
     cases.append(("hygiene", ({1: 10, 2: 5}, {1: 20}, {3: 111}, 3, None)))
     cases.append(("hygiene", ({1: 10}, {4: 14}, {}, 1, 4)))
